@@ -58,6 +58,9 @@ POSITIONS = [
     ("value-list", "a{font-family:%s, b}", IDF),
     ("pseudo-element", "a::%s{x:1}", IDF),
     ("string-escaped", 'a{x:"\\%s"}', IDF),
+    ("string-bs-before", 'a{x:"\\5c %s"}', IDF + [" 4", "\\5c 4"]),      # a literal backslash directly before the character
+    ("string-bs-after", 'a{x:"%s\\5c 4"}', IDF),                         # ... and directly after it, before a hex digit
+    ("string-bs-end", 'a{x:"%s\\5c "}', IDF),                            # value ending in a backslash
     ("font-family", "@font-face{font-family:%s}", IDF + [" b"]),
     ("import", '@import "%s";', IDF + [" ", ";"]),
     ("import-url", "@import url(%s);", IDF),
@@ -744,7 +747,7 @@ def run(ctx):
     thorough = ctx.tier == "thorough"
     rng = ctx.rng
     P = 6
-    ctx.regen("tokenizer", "escapeenc")
+    ctx.regen("tokenizer", "quote", "escapeenc")
     ctx.coq_build("props/C13.v")
     binary = ctx.ocaml_build("escapeenc")
 
